@@ -113,3 +113,84 @@ _add(
     deciding={"any": {"strings": 2000, "condition-parser:accepted:ACCEPT": 200, "condition-parser:rejected:REJECT": 500, "resolver:accepted:ACCEPT": 300, "resolver:rejected:REJECT": 500, "is_valid_expression_on_malformed": 300}},
     headline=["strings", "nontrivial_strings", "is_valid_expression_on_malformed"],
 )
+
+_add(
+    "C04",
+    shards=(2, 14),
+    timeout=(900, 5400),
+    title="requirement evaluation = compositional four-valued semantics",
+    rule=(
+        "structurally valid expressions over small key pools (keys repeat), range-boundary key pools and larger trees (up to 30 leaves), rendered "
+        "with random operator spellings, whitespace, redundant brackets and flat same-operator runs; ALL 3^k assignments for k <= 6 requirement "
+        "keys (400 sampled above) through evaluate_requirement_constraint_tree, a sample per expression through the async "
+        "requirement_constraint_evaluation with harness evaluators; oracle: recursive reference evaluator on the generator's AST + documented "
+        "outcome mapping. distinct non-trivial = distinct expression strings with >= 2 requirement keys and a hint or format constraint"
+    ),
+    deciding={"any": {"expressions": 300, "nontrivial_expressions": 100, "evaluations_with_unknown": 1000, "async_evaluations": 500}},
+    headline=["expressions", "nontrivial_expressions", "async_evaluations", "operator_calls_observed"],
+)
+
+_add(
+    "C05",
+    shards=(2, 14),
+    timeout=(900, 5400),
+    title="neutrality of hints, format constraints, brackets, operand order; stability under refinement",
+    rule=(
+        "metamorphic relations between two executions of the real evaluator on E and T(E) under the same assignment: T1 fresh hint and-ed onto "
+        "the whole, T2 onto any operand of U/O/X, T3 fresh format constraint attached (left or right) to any sub-expression containing a "
+        "requirement key, T4 redundant brackets around any sub-expression, T5 operands of any U/O/X swapped - all positions for small "
+        "expressions (sampled above 40/80 variants), all 3^k assignments for k <= 4 (60 sampled above); T6 every definite outcome with UNKNOWN "
+        "entries re-evaluated under all refinements. distinct non-trivial = distinct (transformation, expression, position) triples and (T6, "
+        "expression, assignment) triples"
+    ),
+    deciding={"any": {"expressions": 100, "variants:T1-hint-onto-whole": 100, "variants:T2-hint-onto-operand": 200, "variants:T3-attach-fc": 200, "variants:T4-redundant-brackets": 200, "variants:T5-swap-operands": 200, "definite_outcomes_with_unknown": 200}},
+    headline=["expressions", "definite_outcomes_with_unknown", "async_related_pairs"],
+)
+
+_add(
+    "C06",
+    shards=(2, 14),
+    timeout=(900, 5400),
+    title="validity is structural",
+    rule=(
+        "well-formed expressions in which juxtaposition attaches a single format-constraint key to a hint or to a requirement-constrained operand "
+        "(about 40 % structurally invalid by construction, both clauses of the rule), every assignment (3^m, 300 sampled above m = 6) through "
+        "the direct evaluator; AHB expressions (1-3 parts, invalid iff some part is) under all 3^m*2^n assignments through "
+        "evaluate_ahb_expression_tree with harness evaluators and through is_valid_expression with the ContentEvaluationResult based evaluators "
+        "and a ContextVar setter. Oracle: the structural predicate of the property statement. distinct non-trivial = distinct expression strings"
+    ),
+    deciding={"any": {"invalid_expressions": 200, "valid_expressions": 200, "invalid:hint-with-fc": 20, "invalid:neutral-with-rc": 100, "ahb_invalid": 15, "ahb_valid": 15, "is_valid_expression_calls": 30}},
+    headline=["valid_expressions", "invalid_expressions", "ahb_valid", "ahb_invalid", "is_valid_expression_calls"],
+)
+
+_add(
+    "C07",
+    shards=(2, 14),
+    timeout=(900, 5400),
+    title="collected format-constraint expression",
+    rule=(
+        "structurally valid expressions rich in format constraints (attached to leaves and to composites, left and right), all 3^k requirement "
+        "assignments for k <= 4 (60 sampled above); the collected expression is parsed with the real parser, its shape and keys are checked and it "
+        "is evaluated with the real format-constraint evaluator under ALL 2^n truth assignments against the reference collection; the expression "
+        "returned by requirement_constraint_evaluation is additionally fed to format_constraint_evaluation. distinct non-trivial = distinct "
+        "expression strings with >= 2 format-constraint keys"
+    ),
+    deciding={"any": {"expressions": 300, "present_expressions": 1000, "absent_expressions": 300, "expressions_with_2plus_fc_keys": 100, "async_evaluations": 300}},
+    headline=["expressions", "present_expressions", "absent_expressions", "silent_corner_cases", "async_evaluations"],
+)
+
+_add(
+    "C08",
+    shards=(2, 14),
+    timeout=(900, 5400),
+    title="format-constraint evaluation is Boolean and explains failures",
+    rule=(
+        "well-formed expressions over format-constraint keys with U/O/X in all spellings, minimal and redundant brackets, flat same-operator runs; "
+        "ALL 2^n truth assignments (n <= 7) through evaluate_format_constraint_tree with messages on exactly the unfulfilled leaves (plain, "
+        "unicode, quote-laden texts), a sample through the async format_constraint_evaluation with yielding harness evaluators (explicit messages "
+        "or the default the base evaluator inserts); absent and empty expression. Oracle: Boolean value of the AST; message present iff "
+        "unfulfilled. distinct non-trivial = distinct expression strings mixing >= 2 operator kinds"
+    ),
+    deciding={"any": {"expressions": 300, "expressions_mixing_operators": 100, "unfulfilled_results": 1000, "fulfilled_results": 1000, "async_evaluations": 500, "empty_expressions": 2}},
+    headline=["expressions", "expressions_mixing_operators", "fulfilled_results", "unfulfilled_results", "async_evaluations"],
+)
